@@ -388,6 +388,7 @@ PIPE_ITEMS = [
     ("1AJJ.pdb", 4, True), ("1BX8.pdb", 4, True), ("1K1I.pdb", 5, False),
     ("1A1P.pdb", 2, True), ("1QBS.pdb", 4, False), ("1US0.pdb", 4, False),
     ("1AFS.pdb", 4, False),
+    ("cterm_hid_out.pqr", 1, True),  # a protonated structure fed back as input
 ]
 FFS = ["AMBER", "PARSE", "CHARMM", "SWANSON", "TYL06", "PEOEPB"]
 
@@ -408,6 +409,15 @@ def gen_pipeline_cfg(seed, big=False):
         if r <= 0:
             break
     cfg = {"item": item}
+    if item.endswith(".pqr"):
+        cfg["input_name"] = "in.pdb"
+        argv = [f"--ff={rng.choice(FFS[:3])}"]
+        if rng.random() < 0.6:
+            argv += ["--titration-state-method=propka", f"--with-ph={rng.choice([2.0, 7.0, 12.0])}"]
+        if rng.random() < 0.2:
+            argv.append("--noopt")
+        cfg["argv"] = argv
+        return cfg
     npoly = _npoly(item)
     if not (whole and rng.random() < 0.3):
         n = rng.randint(4, 40 if big else 22)
@@ -437,6 +447,11 @@ def gen_pipeline_cfg(seed, big=False):
     if rng.random() < 0.15:
         cfg["damage"] = (cfg.get("damage") or []) + [[rng.randint(0, max(0, nres - 1)),
                                                        "drop_hydrogens"]]
+    if rng.random() < 0.12 and nres >= 6:
+        cfg["damage"] = (cfg.get("damage") or []) + [[rng.randint(1, nres - 3), "add_oxt"]]
+    if rng.random() < 0.08:
+        cfg["damage"] = (cfg.get("damage") or []) + [[rng.randint(0, max(0, nres - 1)),
+                                                       rng.choice(["altloc", "icode"])]]
     ff = rng.choice(FFS[:3]) if rng.random() < 0.7 else rng.choice(FFS)
     argv = [f"--ff={ff}"]
     if rng.random() < 0.10:
